@@ -39,6 +39,8 @@ func main() {
 	list := flag.Bool("list", false, "list properties")
 	selftest := flag.Bool("selftest", false, "run primitive fixtures only")
 	manifest := flag.Bool("manifest", false, "print MANIFEST.json for the registered properties")
+	wireDbg := flag.String("wire", "", "debug: print sample wire-token sequences of <pkg.Type>'s Encode and Decode")
+	wireProto := flag.Int64("proto", -1, "debug: protocol for -wire")
 	rxeq := flag.Bool("rxeq", false, "debug: decide language equality of the two regexps given as arguments")
 	flag.Parse()
 	if *rxeq {
@@ -48,6 +50,10 @@ func main() {
 	}
 	if *manifest {
 		printManifest()
+		return
+	}
+	if *wireDbg != "" {
+		debugWire(*wireDbg, *wireProto)
 		return
 	}
 	if *list {
